@@ -1,3 +1,6 @@
+/-
+  C06 — helper lemmas for words: line continuations, quotes, the flat word fragment.
+-/
 import YashModel.Syntax.Lemmas
 namespace YashModel.Syntax
 
@@ -80,5 +83,96 @@ theorem lexEscapedQuoted_print (es : List EscapeUnit) (rest : List Char)
     rw [e] at hr ⊢
     simp only [List.cons_append] at hr ⊢
     simp only [lexEscapedQuoted, hc, if_false, hr, ih']
+
+/-! ## the flat word fragment -/
+
+
+/-- characters that start something other than a literal inside a word -/
+def isWordSpecial (c : Char) : Bool := c = '\\' || c = '\'' || c = '"' || c = '$' || c = '`'
+
+/-- the word units of the proved fragment, relative to the delimiter predicate in force -/
+def WordUnit.Flat (d : Delim) : WordUnit → Prop
+  | .unquoted (.literal c) => isWordSpecial c = false ∧ d.test c = false
+  | .unquoted (.backslashed c) => c ≠ '\n'
+  | .singleQuote s => '\'' ∉ s
+  | .dollarSingleQuote es => ∀ u ∈ es, u.Producible ∧ u ≠ .literal '\''
+  | _ => False
+
+theorem printWordUnit_length_pos (d : Delim) (u : WordUnit) (h : u.Flat d) :
+    1 ≤ (printWordUnit u).length := by
+  cases u with
+  | unquoted t => cases t <;> simp [printWordUnit, printTextUnit]
+  | _ => simp [printWordUnit]
+
+theorem lexWordUnit_flat (d : Delim) (hd : d.test '$' = false) (u : WordUnit) (h : u.Flat d)
+    (rest : List Char) :
+    ∀ fuel, (printWordUnit u).length + 2 ≤ fuel →
+      lexWordUnit fuel .word d (printWordUnit u ++ rest) = .ok u rest := by
+  intro fuel hf
+  obtain ⟨n, rfl⟩ : ∃ n, fuel = n + 2 := ⟨fuel - 2, by omega⟩
+  cases u with
+  | unquoted t =>
+    cases t with
+    | literal c =>
+      obtain ⟨hs, hdc⟩ := h
+      simp [isWordSpecial] at hs
+      obtain ⟨⟨⟨⟨h1, h2⟩, h3⟩, h4⟩, h5⟩ := hs
+      simp [printWordUnit, printTextUnit, lexWordUnit, lexTextUnit, skipLC_cons_ne c _ h1, h1, h2, h3,
+        h4, h5, hdc, isLitDollar]
+    | backslashed c =>
+      have hc : c ≠ '\n' := h
+      simp [printWordUnit, printTextUnit, lexWordUnit, lexTextUnit, skipLC_bs_ne c _ hc, escapable,
+        isLitDollar]
+    | _ => exact absurd h (by simp [WordUnit.Flat])
+  | singleQuote s =>
+    have hs : '\'' ∉ s := h
+    simp [printWordUnit, lexWordUnit, skipLC_cons_ne, takeSingleQuoted_print s rest hs]
+  | dollarSingleQuote es =>
+    have hes : ∀ u ∈ es, u.Producible ∧ u ≠ .literal '\'' := h
+    have hl := printEscaped_length es hes
+    have hq := lexEscapedQuoted_print es rest hes (n + 1) (by
+      simp [printWordUnit] at hf; omega)
+    simp [printWordUnit, lexWordUnit, lexTextUnit, skipLC_cons_ne, hd, isSpecialParamChar,
+      YashModel.Generated.QuoteTables.specialParamChars, isAsciiDigit, isNameChar, isLitDollar, hq]
+  | _ => exact absurd h (by simp [WordUnit.Flat])
+
+
+theorem printWord_cons (u : WordUnit) (us : List WordUnit) :
+    printWord (u :: us) = printWordUnit u ++ printWord us := by
+  simp [printWord]
+
+/-- conditions on the character that ends the word -/
+def Delim.Ends (d : Delim) (c : Char) : Prop := d.test c = true ∧ isWordSpecial c = false
+
+theorem lexWordUnit_at_delim (d : Delim) (c : Char) (hc : d.Ends c) (rest : List Char) :
+    ∀ fuel, 2 ≤ fuel → lexWordUnit fuel .word d (c :: rest) = .none (c :: rest) := by
+  intro fuel hf
+  obtain ⟨n, rfl⟩ : ∃ n, fuel = n + 2 := ⟨fuel - 2, by omega⟩
+  obtain ⟨ht, hs⟩ := hc
+  simp [isWordSpecial] at hs
+  obtain ⟨⟨⟨⟨h1, h2⟩, h3⟩, h4⟩, h5⟩ := hs
+  simp [lexWordUnit, lexTextUnit, skipLC_cons_ne c _ h1, h1, h2, h3, h4, h5, ht]
+
+theorem lexWordUnits_flat (d : Delim) (hd : d.test '$' = false) (w : List WordUnit)
+    (h : ∀ u ∈ w, u.Flat d) (c : Char) (hc : d.Ends c) (rest : List Char) :
+    ∀ fuel, (printWord w).length + 3 ≤ fuel →
+      lexWordUnits fuel .word d (printWord w ++ c :: rest) = some (w, c :: rest) := by
+  induction w with
+  | nil =>
+    intro fuel hf
+    obtain ⟨n, rfl⟩ : ∃ n, fuel = n + 1 := ⟨fuel - 1, by omega⟩
+    simp [printWord, lexWordUnits, lexWordUnit_at_delim d c hc rest n (by simp [printWord] at hf; omega)]
+  | cons u us ih =>
+    intro fuel hf
+    obtain ⟨n, rfl⟩ : ∃ n, fuel = n + 1 := ⟨fuel - 1, by omega⟩
+    have hu := h u (by simp)
+    have hpos := printWordUnit_length_pos d u hu
+    rw [printWord_cons] at hf ⊢
+    simp only [List.length_append] at hf
+    have h1 := lexWordUnit_flat d hd u hu (printWord us ++ c :: rest) n (by omega)
+    have h2 := ih (fun v hv => h v (by simp [hv])) n (by omega)
+    simp only [List.append_assoc]
+    simp only [lexWordUnits, h1, h2]
+
 
 end YashModel.Syntax
